@@ -11,10 +11,10 @@ CHECKS = {
  "C02": ("proptest: near-miss password mutators; oracle = exact InvalidLoginError + positive control",
          "Generated search over (password, near-miss mutation) pairs (bit flips, prefixes/extensions, NUL/space/newline, case, swaps, empty, 65535-byte pairs, len+256 with equal tail) per suite; wrong password must end in exactly InvalidLoginError, right password must succeed in the same sessions.",
          "Sampling. OPRF/hash collisions assumed impossible.", "5 C02"),
- "C03": ("proptest + exhaustive per-case enumeration of finalization mutants (all bit flips / byte substitutions, publicly computable constants) + libFuzzer target server_finish (thorough) + corpus replay; oracle = acceptance model",
+ "C03": ("proptest + exhaustive per-case enumeration of finalization mutants (all bit flips / byte substitutions, XOR-cancelling / sum-preserving / permuting multi-byte alterations, publicly computable constants; pending states also after a native / bincode / JSON round trip) + libFuzzer target server_finish (thorough) + corpus replay; oracle = acceptance model",
          "For generated pending server states (real, fake-record, wrong-password, answered-twice) every single-bit flip and every single-byte substitution of the genuine finalization plus cross-session/constant/random candidates is delivered to a clone; only the matching finalization may yield a key.",
          "Bit/byte substitutions are exhaustive per sampled state; states are sampled. MAC forgeries not generated are out of reach.", "5 C03"),
- "C04": ("proptest + per-case enumeration of response mutants (offset x value, field mixes, fresh fields) + libFuzzer target login_response (thorough) + corpus replay; oracle = acceptance model with alias separation",
+ "C04": ("proptest + per-case enumeration of response mutants (offset x value, field mixes, fresh fields, XOR-cancelling / sum-preserving / permuting multi-byte alterations per field) + libFuzzer target login_response (thorough) + corpus replay; oracle = acceptance model with alias separation",
          "For generated honest logins every offset of the genuine credential response is substituted (thorough: all 255 values for fast/medium suites), all field-wise mixes with 7 other responses and fresh valid fields are tried on clones of the pending client state; only the genuine answers may be accepted.",
          "Sampling over sessions; enumeration bounds stated in evidence. Mutants that re-encode to a genuine response are aliases and left to C10.", "5 C04"),
  "C05": ("proptest: parameter triples in three families; oracle = effective-parameter match model, both directions",
@@ -30,7 +30,7 @@ CHECKS = {
          "Generated sequences of fake attempts interleaved with real logins on one server tape: fake responses have the real length/structure, the evaluation element equals the reference oprf_key(seed,cred)*request and the real-record one, other fields differ across attempts, client fails with InvalidLoginError as for a wrong password, no finalization completes the fake state.",
          "'Unpredictable' is checked as inequality + witness to fresh draws, not computational indistinguishability.", "5 C08"),
  "C09": ("proptest differential against an independent RFC 9807/9497 reference model pinned by RFC vectors",
-         "Every byte of every message, the password file, export key, session keys and the pending server state is reproduced by an independent reference implementation from the inputs and the witnessed random choices, on all 24 suites incl. fake records, wrong passwords, 65535-byte parameters.",
+         "Every byte of every message, the password file, export key, session keys and the pending server state is reproduced by an independent reference implementation from the inputs and the witnessed random choices, on all 24 suites incl. fake records, wrong passwords, 65535-byte parameters, and Argon2 instances with a configured output length (refused, or still T = Nh).",
          "Trusted base: sha2, voprf hash-to-group, curve crates, argon2, pinned at start-up by RFC 9807 App. C (6+3), RFC 9497 App. A (OPRF mode, 4 suites), RFC 7748 vectors.", "5 C09"),
  "C10": ("proptest + per-case enumeration (all lengths 0..len+64, all tag bytes, byte substitutions, non-reduced forms) + libFuzzer target `decoders` (thorough); oracle = decode(b)=Ok(x) => encode(x)=b",
          "For valid encodings of all 11 native decoders from generated honest runs: every truncation/extension length, every leading byte of every group-element field, single-byte substitutions at every offset, non-reduced scalars/field elements, random strings; accepted strings must have the fixed length and re-encode to themselves.",
@@ -38,7 +38,7 @@ CHECKS = {
  "C11": ("proptest + table-driven invalid-encoding splicing through native/bincode/JSON decoders; independent validity predicate",
          "Every group-element/scalar field of every type gets every invalid encoding class (identity, off-curve, out-of-range, non-canonical/negative ristretto, small-order Curve25519 in all representable forms, zero/>=order scalars) with all other fields valid, through the native, bincode and JSON decoders; all must be rejected.",
          "Class table is applied exhaustively; values inside a class are sampled. Invalidity is confirmed by a predicate built on the curve crates.", "5 C11"),
- "C12": ("proptest + catch_unwind around every call: random/mutated decoder inputs, adversarial field values that are then used, cross-session deliveries, per-step over-limit refusal grid, awkward KSF parameters; libFuzzer targets decoders and server_start (thorough) + corpus replay",
+ "C12": ("proptest + catch_unwind around every call: random/mutated decoder inputs, adversarial field values (invalid encodings, and valid values taken from other positions of the same run) that are then used, cross-session deliveries, per-step over-limit refusal grid, awkward KSF parameters; libFuzzer targets decoders and server_start (thorough) + corpus replay",
          "No call may panic; in-range lengths complete, over-limit password/identity/context never complete a registration or login.",
          "Sampling; non-termination is reported as inconclusive by a watchdog.", "5 C12"),
  "C13": ("proptest differential: run with save/reload plans (native, bincode, JSON at 5 persistence points) vs uninterrupted run on equal tapes; libFuzzer targets decoders (accepted values survive every codec) and history (states pushed through a codec between the steps of adversarial histories) in the thorough tier + corpus replay",
@@ -53,10 +53,10 @@ CHECKS = {
  "C16": ("proptest histories (register/re-register/login) against a model map + substring scan for secrets",
          "Export key stability and separation across histories; no export key, session key or long password occurs verbatim in any message or file.",
          "Sampling.", "5 C16"),
- "C17": ("proptest over tape pairs (equal, independent, spliced after byte n, zero-prefixed) + RNG fault injection at every call index; determinism differential, freshness, per-value tape-location relations",
+ "C17": ("proptest over tape pairs (equal, independent, spliced after byte n, zero-prefixed) + RNG fault injection at every call index + KeGroup::random_sk on 32 independent tapes; determinism differential, freshness, per-value tape-location relations",
          "Equal tapes give equal outputs (no hidden entropy); every random value varies with the tape, is pairwise distinct and is witnessed by a recorded draw.",
          "Sampling; the recording RNG is the only entropy source offered.", "5 C17"),
- "C18": ("proptest differential direct key vs journalling RemoteKey implementation of SecretKey (raw and handle-serialising) + fault injection at every call index of login start, registration start, key-pair construction and setup restore",
+ "C18": ("proptest differential direct key vs journalling RemoteKey implementation of SecretKey (raw, handle-serialising, and a second key type with a 16-byte slot handle, SecretKey::Len != Nsk) + fault injection at every call index of login start, registration start, key-pair construction and setup restore",
          "Byte-identical outputs with an external key using only public_key/diffie_hellman; a failure at call n is returned as that error without output, for every n.",
          "Fault positions exhaustive per sampled input.", "5 C18"),
  "C19": ("proptest algebraic laws + differential against curve crates and reference DeriveDiffieHellmanKeyPair",
